@@ -63,6 +63,31 @@ class Ctx:
                     pass  # a torn line (concurrent printing) is dropped, never guessed
         return out
 
+    def adversarial(self, module, cfg, keep, timeout=1800):
+        """(G) behaviours on which a deliberately defective variant of the model (the pinned commit's
+        behaviour, or a named mutation) violates the property; exhaustive within the cfg's bounds, then sampled"""
+        import random
+        r = tlc(self.sc, module, cfg, workers="auto", timeout=timeout, extra=("-seed", str(seed())))
+        out = []
+        for l in r.out.splitlines():
+            if l.startswith('"BEHAVIOUR '):
+                try:
+                    out.append(json.loads(l).split(" ", 1)[1])
+                except Exception:
+                    pass
+        out = sorted(set(out))
+        if not out:
+            raise NoVerdict("adversarial model %s/%s produced no behaviour:\n%s" % (module, cfg, r.out[-3000:]))
+        total = len(out)
+        random.Random(seed()).shuffle(out)
+        out = out[:keep]
+        log("(G) adversarial model %s/%s: %d violating behaviours of the defective model variant, %d kept (%.1fs)" % (module, cfg, total, len(out), r.wall))
+        self.design_runs.append(dict(module=module, cfg=cfg, role="adversarial generation (defective model variant)", distinct_states=r.distinct,
+                                     transitions=r.generated, violating_behaviours=total, wall_s=round(r.wall, 1)))
+        self.notes.setdefault("tlc_generated_behaviours", 0)
+        self.notes["tlc_generated_behaviours"] += len(out)
+        return out
+
     def generate(self, module, cfg, num, depth, timeout=1200):
         """(G) seeded TLC -simulate walks; the spec prints every finished behaviour as JSON"""
         r = tlc(self.sc, module, cfg, workers=1, timeout=timeout, simulate="num=%d" % num,
@@ -348,3 +373,19 @@ def c11(ctx):
     ctx.design("NotifQueue", "MC_NotifQueue_quick.cfg" if q else "MC_NotifQueue_thorough.cfg")
     beh = ctx.generate("NotifQueue", "MC_NotifQueue_gen.cfg", num=1500 if q else 30000, depth=14)
     ctx.gv("tlc-schedules", "Trace_NotifQueue", ["queue"], inputs=beh)
+
+
+@check("C06")
+def c06(ctx):
+    ctx.assumptions += ["the Raft log under the readers is a harness implementation of dragonboat's ReadonlyLogReader contract (GetRange = (marker+1, last); Entries = longest prefix within maxSize, at least one entry), transcribed from internal/logdb/logreader.go",
+                        "cache invalidation on compaction is applied atomically with the compaction (the engine does it asynchronously from the LogCompacted event)",
+                        "where a size limit cuts an answer is not pinned; only contiguity, labels, bounds, the special answers and 'at least one entry' are"]
+    q = ctx.quick
+    ctx.design("MC_LogReader", "MC_LogReader_quick.cfg" if q else "MC_LogReader_thorough.cfg")
+    beh = ctx.generate("MC_LogReader", "MC_LogReader_gen.cfg", num=800 if q else 15000, depth=16)
+    if not ctx.gv("tlc-schedules", "Trace_LogReader", ["logreader", "--seed", str(seed())], inputs=beh):
+        return
+    # adversarial schedules: every behaviour (<= 7 steps, 2 sessions) on which the model of the PINNED commit
+    # (Mode = asis: fixSize may return nothing, cache.get may return nothing for an overlapping range) breaks the property
+    adv = ctx.adversarial("MC_LogReader", "MC_LogReader_adv.cfg", keep=1500 if q else 20000)
+    ctx.gv("tlc-adversarial", "Trace_LogReader", ["logreader", "--seed", str(seed())], inputs=adv)
